@@ -29,14 +29,23 @@ CLAIMS = {
             "convert_path_str reads back to the very same list (path_round_trip; f32 position arithmetic and the `as i32` "
             "casts by explicit lemmas; extra Display hypothesis fmt_f32_int). T02b per line: the object the decoder reads "
             "from the encoder's circle / spinner / hold line equals the written one up to what the format cannot carry "
-            "(carry_object), in every parser state; time side conditions proved for integer times only "
-            "(C02_times_ok_partial). T02d partial: collect_samples changes only the sample points; control points of every "
-            "decoded map are sorted; decoding the rendered [TimingPoints] section gives back the timing points and the "
-            "slider-velocity / kiai / scroll timelines agree at every time (C02_timing_round_trip_partial) under the "
-            "decidable side conditions rt_side (values separated by >= EPSILON - refuted otherwise: D27, D28; velocities "
-            "surviving -100/sv -> 100/-x; the D12 exclusion; written numbers within limits) which are hypotheses, not yet "
-            "facts about every decoded map. NOT mechanised: sliders end to end incl. curves and velocities (T02e), "
-            "composition with the framing theorem - covered by the `enc` correspondence (decoder, curve, slider-event and encoder models composed, rendered with Rust's Display, "
+            "(carry_object), in every parser state; the shape hypotheses are discharged for decoded maps "
+            "(C02_decoded_objects_shape, C02_decoded_object_ok): circles need only not-D30; spinners and holds need not-D30, "
+            "not-D26 and the time condition, proved for integer times only (C02_times_ok_partial; 3.4e6 searched cases of "
+            "fractional times found no failure). T02d: collect_samples changes only the sample points; control points of "
+            "every decoded map are sorted, within their clamps and the parse limits (C02_decoded_timing_invariants); the "
+            "velocity fixed point -100/sv -> 100/-x is PROVED on the decoder's image (C02_three_divisions over the reals: "
+            "RN(100/RN(100/S)) = S for S = RN(100/x) in [2^-4, 2^4]; C02_decoded_svs_round_trip); "
+            "C02_timing_round_trip_decoded: for every decoded map, decoding the rendered [TimingPoints] section gives back "
+            "the timing points and the slider-velocity / kiai / scroll timelines agree at every time, with only the recorded "
+            "classes as hypotheses (D8/D28, D27, D12, D26/D32 - each refuted by a decodable input). T02e per line "
+            "(C02_slider_round_trip_partial): a decoded slider outside the classes is re-read with the same start, position, "
+            "control points, repeat and node count, and THE SAME CURVE (the written length is the curve's distance and "
+            "requesting the natural length keeps the natural curve, exact since the D9 repair); velocity is a function of "
+            "data shown equal. T02a also composed with the framing theorem: decoding the lines of an encoding gives the "
+            "simple sections of read_back m (C02_decode_of_encoding_simple_sections). NOT mechanised: names/banks of "
+            "slider-node samples (D31), composing the timing and hit-object sections with the framing theorem, spinner/hold "
+            "time condition for fractional times - covered by the `enc` correspondence (decoder, curve, slider-event and encoder models composed, rendered with Rust's Display, "
             "compared with encode_to_string byte for byte) and by the oracle. D2 and D16 were found by this package's "
             "checks and repaired (4262585, d78b06a). Oracle: field-by-field comparison of decode(x) and "
             "decode(encode(decode(x))) for exactly the items the property lists, timelines sampled at all control-point "
@@ -48,7 +57,8 @@ CLAIMS = {
             "preserved field is unchanged; a mode edit modulo special style); edit lists by induction; breaks are representable "
             "under the plain order condition D.lt end start = false within the limits, so breaks between the two zeros in "
             "either sign order survive (Examples rep_break_zero_signs, break_zero_edit_survives). D24 (start.max(end)) was "
-            "found here and repaired (d58847e); the old behaviour is an unlisted oracle failure. Recorded: D23 (file names "
+            "found here and repaired (d58847e); bookmarks: any list of values within +-(2^31-1) is representable and survives "
+            "(D10 repaired, 846d631); the old behaviours are unlisted oracle failures. Recorded: D23 (file names "
             "that normalise to contain //). Tie to the code: `edit` "
             "correspondence (decode, edit, encode) and an oracle with per-field value generators (colons, //, commas, "
             "quotes, brackets, header-like and version-like text, non-ASCII, boundary numbers) on the real encode/decode.",
@@ -62,11 +72,14 @@ CLAIMS = {
             "slider line is accepted in every parser state and adds one slider with the same control points, repeat count "
             "and node count (slider_line_accepted, under the boolean slider_ok); every decoded map's objects satisfy "
             "object_image (decoded_objects_image: invariant carried through the line parsers, the stable sort, break "
-            "post-processing and the per-object loop), and for a decoded map whose objects satisfy `residual` every "
-            "[HitObjects] line is accepted (decoded_hit_object_lines_accepted). PARTIAL: `residual` names exactly what is "
-            "not an invariant of decoded maps - sample_ok of processed samples (hypothesis) and the recorded classes D13, "
-            "D17, consecutive Catmull, D21, D26 (end = start + duration beyond the parse limit by an ulp: refuted in Coq "
-            "for every formatting function, end_beyond_limit_rejected). D2 was found here and repaired (4262585). Oracle: every non-blank line of the real encoding is fed to the public parse function of its "
+            "post-processing and the per-object loop); sample data is an invariant of decoded maps too "
+            "(C04_decoded_samples_image: indices/volumes within i32, file names free of `,` `:` `//`, carried through "
+            "read_custom_sample_banks, convert_sound_type, the sort, break processing and SamplePoint::apply), so every "
+            "[HitObjects] line of every decoded map is accepted under the recorded classes ONLY "
+            "(C04_decoded_hit_object_lines_accepted_classes: D30 trailing white space in a sample file name - new -, D13, "
+            "D17, consecutive Catmull, D21, D26), each refuted in Coq by a decodable input; [TimingPoints] lines of decoded "
+            "maps are accepted outside D26/D32 (C04_decoded_timing_lines_accepted; D32 new: a slider ending beyond "
+            "2147483647 ms writes a timing line the decoder rejects, refuted with the real curve/event models). D2 was found here and repaired (4262585). Oracle: every non-blank line of the real encoding is fed to the public parse function of its "
             "section; headers, order, counts after re-decoding.",
             "§6 C04"),
     "C07": ("Unbounded theorems (coq/Properties/C07.v), for ANY curve-distance function: the nine decoder types are nine "
@@ -270,9 +283,12 @@ CLAIMS = {
             "any file, D.le start end = true and D.lt end start = false (C11_decoded_*_breaks); a record with end >= start "
             "keeps its end time bit for bit, zeros included, and a record written backwards ends where it starts "
             "(C11_break_end_kept / _reversed); background precedence; all tables and constants pinned against the generated "
-            "ones. D1 (first colon) and D24 (end computed as start.max(end), which lost the sign of a zero end) were repaired "
-            "(9215ca2, d58847e; the oracle compares break times bit for bit); deviations refuted with witnesses and recorded: "
-            "D10 bookmarks, D14 f32 limit. Tie "
+            "ones; the elements of a Bookmarks value are numbers like any other (trimmed integer literal within +-(2^31-1): "
+            "C11_bookmarks_elements) and every stored bookmark of every decoded Editor / Beatmap lies within the limit "
+            "(C11_decoded_*_bookmarks). D1 (first colon), D24 (break end as start.max(end) lost the sign of a zero end) and "
+            "D10 (bookmark elements through plain str::parse) were found here and repaired (9215ca2, d58847e, 846d631); the "
+            "formerly failing inputs are Examples and the old behaviour is an unlisted oracle failure. One deviation is "
+            "refuted with a witness and recorded: D14 (f32 limit, same as the reference client). Tie "
             "to the code: bit-exact correspondence through the public parse_* functions over every key x value class x "
             "decoration, numeric stress streams, plus an independent table-driven reference oracle.",
             "§6 C11"),
@@ -341,7 +357,7 @@ def main():
             "enable": "harness/Cargo.toml depends on rosu-map with features=[\"verif-hooks\"]",
             "baseline_off_cmd": "cd /repo && cargo test --workspace --no-fail-fast --offline",
             "source_commits": ["f0db42e"],
-            "fix_commits": ["9215ca2", "26f4d98", "738fe2f", "4262585", "d78b06a", "fe92d4b", "0477e58", "af28242", "9dbef29", "b151c62", "d58847e"],
+            "fix_commits": ["9215ca2", "26f4d98", "738fe2f", "4262585", "d78b06a", "fe92d4b", "0477e58", "af28242", "9dbef29", "b151c62", "d58847e", "846d631"],
             "add_only": True,
         },
         "engines": [{
